@@ -300,6 +300,12 @@ theorem nested_order_independent (π₁ π₂ : EnumOrder) (h₁ : PermValued π
     · show ([A₁].map key).Perm ([A₂].map key)
       simp [ka]
   | .orderby _ _, he => by simp [GenEx] at he
+  | .setpat _ _ _, he => by simp [GenEx] at he
+  | .rank _ _, he => by simp [GenEx] at he
+  | .with_ _ (.setpat _ _ _), he => by simp [GenEx] at he
+  | .with_ _ (.rank _ _), he => by simp [GenEx] at he
+  | .without _ (.setpat _ _ _), he => by simp [GenEx] at he
+  | .without _ (.rank _ _), he => by simp [GenEx] at he
   | .count _, he => by simp [GenEx] at he
   | .with_ _ (.union _ _), he => by simp [GenEx] at he
   | .with_ _ (.inter _ _), he => by simp [GenEx] at he
